@@ -163,6 +163,38 @@ func newCW(big, gated bool) *cwStream {
 	return s
 }
 
+// wtStream implements BodyWriterTo: its WriteTo issues one Write per segment, empty segments included.
+type wtStream struct {
+	segs    [][]byte
+	support bool
+	data    []byte
+	pos     int
+	closes  atomic.Int32
+}
+
+func (s *wtStream) Read(p []byte) (int, error) {
+	if s.pos >= len(s.data) {
+		return 0, io.EOF
+	}
+	n := copy(p, s.data[s.pos:])
+	s.pos += n
+	return n, nil
+}
+
+func (s *wtStream) WriteTo(w io.Writer) (int64, error) {
+	var total int64
+	for _, seg := range s.segs {
+		n, err := w.Write(seg)
+		total += int64(n)
+		if err != nil {
+			return total, err
+		}
+	}
+	return total, nil
+}
+func (s *wtStream) SupportsBodyWriteTo() bool { return s.support }
+func (s *wtStream) Close() error              { s.closes.Add(1); return nil }
+
 func newStream(data []byte, script []rdop, closer bool) (io.Reader, *sstream) {
 	s := &sstream{data: data, script: script}
 	if closer {
@@ -230,6 +262,8 @@ type desc struct {
 	Discard   string   `json:"discard,omitempty"`   // zlife: writefail | writeok | close | reset | setbody | release
 	GoFirst   bool     `json:"gofirst,omitempty"`   // zlife: let the compressor goroutine finish before the discard
 	Big       bool     `json:"big,omitempty"`       // zlife: 8 MiB incompressible stream (otherwise a small gated one)
+	Segs      []hlib.B `json:"segs,omitempty"`      // msgwt: the Write calls the stream's WriteTo makes (empty ones included)
+	Support   bool     `json:"support,omitempty"`   // msgwt: SupportsBodyWriteTo()
 }
 
 // ---------------------------------------------------------------------------
@@ -517,6 +551,118 @@ func runMsg(d desc) hlib.Case {
 		c.Sig = fmt.Sprintf("msg-%s-%s-%s-%s-closer%v-send%v-att%v", d.Mk, d.K, framing, res, closer, d.Send, attached)
 		c.Kind = "msg-" + res
 		c.Size = len(d.Data.bytes())
+		return c
+	}
+	panic("Date header kept changing")
+}
+
+const nextResp = "HTTP/1.1 200 OK\r\nContent-Length: 2\r\n\r\nOK"
+const nextReq = "GET /second HTTP/1.1\r\nHost: h\r\n\r\n"
+
+func buildMsgWT(d desc) (msg, *wtStream) {
+	st := &wtStream{support: d.Support}
+	for _, sg := range d.Segs {
+		st.segs = append(st.segs, sg)
+		st.data = append(st.data, sg...)
+	}
+	var m msg
+	if d.Mk == "req" {
+		m.req = &fasthttp.Request{}
+		m.req.Header.SetMethod("POST")
+		m.req.SetRequestURI("http://h/p")
+		m.req.SetBodyStream(st, d.Decl)
+	} else {
+		m.resp = &fasthttp.Response{}
+		m.resp.SkipBody = !d.Send
+		m.resp.ImmediateHeaderFlush = d.Flush
+		m.resp.SetBodyStream(st, d.Decl)
+	}
+	return m, st
+}
+
+func runMsgWT(d desc) hlib.Case {
+	segs := make([][]byte, len(d.Segs))
+	for i, sg := range d.Segs {
+		segs[i] = sg
+	}
+	dry := func() []byte {
+		dd := d
+		dd.Budget = -1
+		m, _ := buildMsgWT(dd)
+		t := &target{budget: -1}
+		bw := bufio.NewWriterSize(t, 1<<16)
+		m.write(bw) //nolint:errcheck
+		bw.Flush()
+		n := splitHead(t.buf.Bytes())
+		if n < 0 {
+			panic("no head in dry run")
+		}
+		return append([]byte(nil), t.buf.Bytes()[:n]...)
+	}
+	for attempt := 0; attempt < 5; attempt++ {
+		hdr := dry()
+		m, st := buildMsgWT(d)
+		trailer := m.trailer()
+		t := &target{budget: d.Budget}
+		bw := bufio.NewWriterSize(t, d.Size)
+		var err error
+		panicked := hlib.Protect(func() { err = m.write(bw) })
+		res := classifyW(err, panicked)
+		o := wobs(t, bw, res)
+		attached := m.isStream()
+		closes := int(st.closes.Load())
+		var wire []byte
+		if res == "WOk" {
+			bw.Flush()
+			wire = append([]byte(nil), t.buf.Bytes()...)
+		}
+		m.reset()
+		finalCloses := int(st.closes.Load())
+		if !bytes.Equal(hdr, dry()) {
+			continue
+		}
+		// what a peer makes of the wire followed by a pipelined second message
+		next := nextResp
+		if d.Mk == "req" {
+			next = nextReq
+		}
+		dec := "RPanic"
+		if res == "WOk" && d.Budget < 0 && d.Decl < 0 {
+			in := append(append([]byte(nil), wire...), next...)
+			under := bytes.NewReader(in)
+			br := bufio.NewReaderSize(under, len(in)+64)
+			var body []byte
+			var rerr error
+			if d.Mk == "req" {
+				var req fasthttp.Request
+				rerr = req.ReadLimitBody(br, 0)
+				body = append([]byte(nil), req.Body()...)
+			} else {
+				var resp fasthttp.Response
+				rerr = resp.ReadLimitBody(br, 0)
+				body = append([]byte(nil), resp.Body()...)
+			}
+			dec = robs(body, len(in)-br.Buffered()-under.Len()-len(hdr), rerr, "")
+		}
+		var c hlib.Case
+		c.Coq = hlib.App("CMsgWT", coqMk(d.Mk), hlib.Bool(d.Support), hlib.Z(int64(d.Size)), hlib.Z(int64(d.Budget)), hlib.Z(int64(d.Decl)),
+			hlib.Bool(d.Send || d.Mk == "req"), hlib.Bool(d.Flush && d.Mk != "req"), lit(hdr), lit(trailer), litList(segs),
+			o, hlib.Bool(attached), hlib.N(uint64(closes)), lit(wire), lit([]byte(next)), dec, hlib.N(uint64(finalCloses)))
+		empties, first, last := 0, false, false
+		for i, sg := range segs {
+			if len(sg) == 0 {
+				empties++
+				first = first || i == 0
+				last = last || i == len(segs)-1
+			}
+		}
+		framing := "fixed"
+		if d.Decl < 0 {
+			framing = "chunked"
+		}
+		c.Sig = fmt.Sprintf("msgwt-%s-%s-sup%v-%s-e%d-f%v-l%v", d.Mk, framing, d.Support, res, min(empties, 3), first, last)
+		c.Kind = "msgwt-" + res
+		c.Size = len(segs)
 		return c
 	}
 	panic("Date header kept changing")
@@ -1286,6 +1432,26 @@ func gen(r *rand.Rand, i int) desc {
 			d.K, d.Script = "bytes", nil
 		}
 		return d
+	case x < 40:
+		n := r.Intn(6)
+		d := desc{Op: "msgwt", Mk: mk, Support: r.Intn(4) > 0, Size: hlib.Pick(r, []int{16, 64, 300, 4096}), Budget: genBudget(r, 200),
+			Send: r.Intn(8) > 0, Flush: r.Intn(4) == 0, Decl: -1}
+		total := 0
+		for j := 0; j < n; j++ {
+			var sg []byte
+			if r.Intn(3) > 0 {
+				sg = hlib.Bytes(r, alpha, hlib.Pick(r, []int{1, 6, 30, 100}))
+			}
+			total += len(sg)
+			d.Segs = append(d.Segs, sg)
+		}
+		switch r.Intn(4) {
+		case 0:
+			d.Decl = total
+		case 1:
+			d.Decl = max2(total+r.Intn(3)-1, 0)
+		}
+		return d
 	case x < 54:
 		d := desc{Op: "msg", Mk: mk, K: "reader", Size: hlib.Pick(r, []int{16, 64, 100, 300, 4096}), Budget: genBudget(r, 300), Data: genData(r),
 			Script: genScript(r, true), Send: r.Intn(6) > 0, Flush: r.Intn(4) == 0, Closer: r.Intn(6) > 0, Trailer: r.Intn(8) == 0}
@@ -1467,6 +1633,29 @@ func corpus() []desc {
 		desc{Op: "life", Mk: "resp", Ops: []lifeop{st(true), {Op: "wrap"}, st(true), {Op: "wrap"}, {Op: "consume", Variant: 0}}},
 		desc{Op: "life", Mk: "resp", Ops: []lifeop{st(false), {Op: "wrap"}, {Op: "release"}}},
 	)
+	// BodyWriterTo streams whose WriteTo makes empty writes: first, middle, last, only, none
+	for _, mk := range []string{"req", "resp"} {
+		for _, segs := range [][]hlib.B{
+			{hlib.B("hello "), hlib.B(""), hlib.B("world")},
+			{hlib.B(""), hlib.B("hello "), hlib.B("world")},
+			{hlib.B("hello "), hlib.B("world"), hlib.B("")},
+			{hlib.B(""), hlib.B(""), hlib.B("x"), hlib.B(""), hlib.B("")},
+			{hlib.B("")},
+			{},
+			{hlib.B("hello "), hlib.B("world")},
+			{hlib.B("0\r\n\r\n"), hlib.B(""), hlib.B("GET /smuggled HTTP/1.1\r\nHost: h\r\n\r\n")},
+		} {
+			total := 0
+			for _, sg := range segs {
+				total += len(sg)
+			}
+			for _, sup := range []bool{true, false} {
+				c = append(c, desc{Op: "msgwt", Mk: mk, Support: sup, Size: 4096, Budget: -1, Decl: -1, Send: true, Segs: segs})
+				c = append(c, desc{Op: "msgwt", Mk: mk, Support: sup, Size: 16, Budget: -1, Decl: total, Send: true, Segs: segs})
+			}
+			c = append(c, desc{Op: "msgwt", Mk: mk, Support: true, Size: 16, Budget: 60, Decl: -1, Send: true, Flush: true, Segs: segs})
+		}
+	}
 	// compressed streams dropped before / after the compressor goroutine has finished
 	for _, disc := range []string{"writefail", "close", "reset", "setbody", "release"} {
 		c = append(c, desc{Op: "zlife", Codec: "gzipbody", Discard: disc, Big: true})
@@ -1518,6 +1707,8 @@ func run(d desc) hlib.Case {
 		return runCtx(d)
 	case "zlife":
 		return runZLife(d)
+	case "msgwt":
+		return runMsgWT(d)
 	}
 	panic("bad op " + d.Op)
 }
